@@ -1064,4 +1064,475 @@ theorem run_no_panic (env : Env) (hw : WF env) (prog : List Op) :
       | err e s1 => rfl
       | panic p => rw [hr] at hp; simp [Res.isPanic] at hp
 
+/-! ## the state an `Err` leaves behind (docs/fixes/08: the budget is checked before `dst` is touched) -/
+
+theorem bind_err {σ : Type} (r : Res σ) (f : σ → Res σ) (e : Err) (s' : σ) (h : r.bind f = .err e s') :
+    r = .err e s' ∨ ∃ s, r = .ok s ∧ f s = .err e s' := by
+  cases r <;> simp [Res.bind] at h
+  · exact Or.inr ⟨_, rfl, h⟩
+  · exact Or.inl (by rw [h.1, h.2])
+
+theorem shiftInto_err (env : Env) (dst a s : Ct) (extra : Nat) (e : Err)
+    (h : shiftInto env dst a extra = .err e s) : s = dst := by
+  simp only [shiftInto] at h; grind
+
+theorem ptAlign_err (env : Env) (dst s : Ct) (pt : Pt) (e : Err) (h : ptAlign env dst pt = .err e s) : s = dst := by
+  simp only [ptAlign] at h; grind
+
+theorem cstAssign_err (env : Env) (dst s : Ct) (cst : Cst) (e : Err) (h : cstAssign env dst cst = .err e s) : s = dst := by
+  simp only [cstAssign] at h; grind
+
+theorem addCtInto_err (env : Env) (dst a b s : Ct) (e : Err) (h : addCtInto env dst a b = .err e s) : s = dst := by
+  simp only [addCtInto] at h; grind
+
+theorem addCtAssign_not_err (env : Env) (dst a s : Ct) (e : Err) : addCtAssign env dst a ≠ .err e s := by
+  have := assignShift_isSome dst.md.logBudget a.md.logBudget
+  simp only [addCtAssign]; grind
+
+theorem withPt_err (env : Env) (pt : Pt) (dst s : Ct) (f : Res Ct) (e : Err) (h : withPt env pt dst f = .err e s) :
+    s = dst ∨ f = .err e s := by
+  simp only [withPt, ptBuild] at h; grind
+
+theorem addPtZnxInto_err_inv (env : Env) (dst a s : Ct) (pt : Pt) (e : Err) (hd : dst.inv env)
+    (h : addPtZnxInto env dst a pt = .err e s) : s.inv env := by
+  rcases bind_err _ _ _ _ h with h1 | ⟨d, h1, h2⟩
+  · exact shiftInto_err _ _ _ _ _ _ h1 ▸ hd
+  · exact ptAlign_err _ _ _ _ _ h2 ▸ (shiftInto_ok_inv _ _ _ _ _ h1).1
+
+theorem addCstZnxInto_err_inv (env : Env) (dst a s : Ct) (cst : Cst) (e : Err) (hd : dst.inv env)
+    (h : addCstZnxInto env dst a cst = .err e s) : s.inv env := by
+  rcases bind_err _ _ _ _ h with h1 | ⟨d, h1, h2⟩
+  · exact shiftInto_err _ _ _ _ _ _ h1 ▸ hd
+  · exact cstAssign_err _ _ _ _ _ h2 ▸ (shiftInto_ok_inv _ _ _ _ _ h1).1
+
+theorem addPtRnxInto_err_inv (env : Env) (dst a s : Ct) (prec : Meta) (e : Err) (hd : dst.inv env)
+    (h : addPtRnxInto env dst a prec = .err e s) : s.inv env := by
+  simp only [addPtRnxInto, rnxToZnx] at h
+  split at h
+  · have : s = dst := by grind
+    exact this ▸ hd
+  · exact addPtZnxInto_err_inv _ _ _ _ _ _ hd h
+
+theorem addPtRnxAssign_err (env : Env) (dst s : Ct) (prec : Meta) (e : Err)
+    (h : addPtRnxAssign env dst prec = .err e s) : s = dst := by
+  simp only [addPtRnxAssign, rnxToZnx, addPtZnxAssign, ptAlign] at h; grind
+
+theorem addCstRnxAssign_err (env : Env) (dst s : Ct) (prec : Meta) (re im : Bool) (e : Err)
+    (h : addCstRnxAssign env dst prec re im = .err e s) : s = dst := by
+  simp only [addCstRnxAssign] at h
+  split at h
+  · cases h
+  · rcases toZnxAtK_cases env (dst.md.logBudget + prec.logDelta) prec.logDelta re im dst with h1 | ⟨_, _, h1⟩
+    · rw [h1] at h; injection h with _ h; exact h.symm
+    · rw [h1] at h; exact cstAssign_err _ _ _ _ _ h
+
+theorem addCstZnxAssignK_err (env : Env) (dst s : Ct) (k ld : Nat) (re im : Bool) (e : Err)
+    (h : addCstZnxAssignK env dst k ld re im = .err e s) : s = dst := by
+  simp only [addCstZnxAssignK] at h
+  rcases toZnxAtK_cases env k ld re im dst with h1 | ⟨_, _, h1⟩
+  · rw [h1] at h; injection h with _ h; exact h.symm
+  · rw [h1] at h; exact cstAssign_err _ _ _ _ _ h
+
+theorem addCstZnxIntoK_err_inv (env : Env) (dst a s : Ct) (k ld : Nat) (re im : Bool) (e : Err) (hd : dst.inv env)
+    (h : addCstZnxIntoK env dst a k ld re im = .err e s) : s.inv env := by
+  simp only [addCstZnxIntoK] at h
+  rcases toZnxAtK_cases env k ld re im dst with h1 | ⟨_, _, h1⟩
+  · rw [h1] at h; injection h with _ h; exact h ▸ hd
+  · rw [h1] at h; exact addCstZnxInto_err_inv _ _ _ _ _ _ hd h
+
+theorem addCstRnxInto_err_inv (env : Env) (dst a s : Ct) (prec : Meta) (re im : Bool) (e : Err) (hd : dst.inv env)
+    (h : addCstRnxInto env dst a prec re im = .err e s) : s.inv env := by
+  simp only [addCstRnxInto] at h
+  split at h
+  · exact shiftInto_err _ _ _ _ _ _ h ▸ hd
+  · split at h
+    · rcases toZnxAtK_cases env (a.md.logBudget - offsetUnary env dst a + prec.logDelta) prec.logDelta re im dst with
+        h1 | ⟨_, _, h1⟩
+      · rw [h1] at h; injection h with _ h; exact h ▸ hd
+      · rw [h1] at h; exact addCstZnxInto_err_inv _ _ _ _ _ _ hd h
+    · injection h with _ h; exact h ▸ hd
+
+theorem negInto_err (env : Env) (dst a s : Ct) (e : Err) (h : negInto env dst a = .err e s) : s = dst := by
+  simp only [negInto, shiftInto] at h; grind
+
+theorem divPow2Into_err (env : Env) (dst a s : Ct) (bits : Nat) (e : Err)
+    (h : divPow2Into env dst a bits = .err e s) : s = dst := by
+  simp only [divPow2Into, shiftInto, Res.bind] at h; grind
+
+theorem divPow2Assign_err (env : Env) (dst s : Ct) (bits : Nat) (e : Err)
+    (h : divPow2Assign env dst bits = .err e s) : s = dst := by
+  simp only [divPow2Assign] at h; grind
+
+theorem rotateInto_err (env : Env) (dst a s : Ct) (k : Int) (e : Err) (h : rotateInto env dst a k = .err e s) : s = dst := by
+  simp only [rotateInto, shiftInto] at h; grind
+
+theorem rotateAssign_err (env : Env) (dst s : Ct) (k : Int) (e : Err) (h : rotateAssign env dst k = .err e s) : s = dst := by
+  simp only [rotateAssign] at h; grind
+
+theorem rescaleAssign_err (env : Env) (ct s : Ct) (k : Nat) (e : Err) (h : rescaleAssign env ct k = .err e s) : s = ct := by
+  simp only [rescaleAssign] at h; grind
+
+theorem rescaleInto_err (env : Env) (dst src s : Ct) (k : Nat) (e : Err)
+    (h : rescaleInto env dst k src = .err e s) : s = dst := by
+  simp only [rescaleInto] at h; grind
+
+theorem finishMul_not_err (dst s : Ct) (p : MulP) (chk : Option Panic) (e : Err) : finishMul dst p chk ≠ .err e s := by
+  cases chk <;> simp [finishMul]
+
+theorem mulInto_err (env : Env) (dst a b s : Ct) (e : Err) (h : mulInto env dst a b = .err e s) : s = dst := by
+  simp only [mulInto] at h
+  split at h
+  · injection h with _ h; exact h.symm
+  · exact absurd h (finishMul_not_err _ _ _ _ _)
+
+theorem squareInto_err (env : Env) (dst a s : Ct) (e : Err) (h : squareInto env dst a = .err e s) : s = dst := by
+  simp only [squareInto] at h
+  split at h
+  · injection h with _ h; exact h.symm
+  · exact absurd h (finishMul_not_err _ _ _ _ _)
+
+theorem mulPtZnxInto_err (env : Env) (dst a s : Ct) (pt : Pt) (e : Err)
+    (h : mulPtZnxInto env dst a pt = .err e s) : s = dst := by
+  simp only [mulPtZnxInto] at h
+  split at h
+  · injection h with _ h; exact h.symm
+  · split at h
+    · injection h with _ h; exact h.symm
+    · exact absurd h (finishMul_not_err _ _ _ _ _)
+
+theorem mulPtRnxInto_err (env : Env) (dst a s : Ct) (prec : Meta) (e : Err)
+    (h : mulPtRnxInto env dst a prec = .err e s) : s = dst := by
+  simp only [mulPtRnxInto, rnxToZnx] at h
+  split at h
+  · grind
+  · exact mulPtZnxInto_err _ _ _ _ _ _ h
+
+theorem mulCstRnx_err (env : Env) (dst a s : Ct) (prec : Meta) (re im assign : Bool) (e : Err)
+    (h : mulCstRnx env dst a prec re im assign = .err e s) : s = dst := by
+  simp only [mulCstRnx] at h
+  split at h
+  · split at h
+    · injection h with _ h; exact h.symm
+    · cases h
+  · rcases toZnxAtK_cases env (prec.minK env.base2k) prec.logDelta re im dst with h1 | ⟨_, _, h1⟩
+    · rw [h1] at h; injection h with _ h; exact h.symm
+    · rw [h1] at h
+      simp only at h
+      split at h
+      · injection h with _ h; exact h.symm
+      · exact absurd h (finishMul_not_err _ _ _ _ _)
+
+theorem mulAddWith_err (env : Env) (dst s : Ct) (prod : Ct → Res Ct) (e : Err)
+    (h : mulAddWith env dst prod = .err e s) : s = dst := by
+  simp only [mulAddWith] at h
+  split at h
+  · exact absurd h (addCtAssign_not_err _ _ _ _ _)
+  · injection h with _ h; exact h.symm
+  · cases h
+
+theorem setMeta_err (env : Env) (ct s : Ct) (m : Meta) (e : Err) (h : setMeta env ct m = .err e s) : s = ct := by
+  simp only [setMeta] at h; grind
+
+theorem realloc_err (env : Env) (ct s : Ct) (size : Nat) (e : Err) (h : realloc env ct size = .err e s) : s = ct := by
+  simp only [realloc] at h; grind
+
+theorem compactCopy_not_err (env : Env) (dst a s : Ct) (e : Err) : compactCopy env dst a ≠ .err e s := by
+  simp only [compactCopy]; grind
+
+theorem decrypt_err (env : Env) (ct s : Ct) (pt : Pt) (e : Err) (h : decrypt env ct pt = .err e s) : s = ct := by
+  simp only [decrypt] at h; grind
+
+theorem encrypt_err_inv (env : Env) (ct s : Ct) (k : Nat) (pt : Pt) (e : Err) (hd : ct.inv env)
+    (h : encrypt env ct k pt = .err e s) : s.inv env := by
+  simp only [encrypt] at h
+  split at h
+  · injection h with _ h; exact h ▸ hd
+  · split at h
+    · rcases bind_err _ _ _ _ h with h1 | ⟨d, h1, h2⟩
+      · exact setMeta_err _ _ _ _ _ h1 ▸ hd
+      · exact ptAlign_err _ _ _ _ _ h2 ▸ (setMeta_ok_inv _ _ _ _ h1).1
+    · injection h with _ h; exact h ▸ hd
+
+theorem putRes_err (pool pool' : Pool) (d : Nat) (r : Res Ct) (e : Err) (h : putRes pool d r = .err e pool') :
+    ∃ c, r = .err e c ∧ pool' = pool.set d c := by
+  cases r <;> simp [putRes] at h
+  exact ⟨_, by rw [h.1], h.2.symm⟩
+
+theorem op1_err (pool pool' : Pool) (d : Nat) (f : Ct → Res Ct) (e : Err) (h : op1 pool d f = .err e pool') :
+    pool' = pool ∨ ∃ cd c, pool[d]? = some cd ∧ f cd = .err e c ∧ pool' = pool.set d c := by
+  simp only [op1] at h
+  split at h
+  · next cd hcd =>
+    obtain ⟨c, h1, h2⟩ := putRes_err _ _ _ _ _ h
+    exact Or.inr ⟨cd, c, hcd, h1, h2⟩
+  · injection h with _ h; exact Or.inl h.symm
+
+theorem op2_err (pool pool' : Pool) (d a : Nat) (f : Ct → Ct → Res Ct) (e : Err) (h : op2 pool d a f = .err e pool') :
+    pool' = pool ∨ ∃ cd ca c, pool[d]? = some cd ∧ pool[a]? = some ca ∧ f cd ca = .err e c ∧ pool' = pool.set d c := by
+  simp only [op2] at h
+  split at h
+  · next cd ca hcd hca =>
+    split at h
+    · injection h with _ h; exact Or.inl h.symm
+    · obtain ⟨c, h1, h2⟩ := putRes_err _ _ _ _ _ h
+      exact Or.inr ⟨cd, ca, c, hcd, hca, h1, h2⟩
+  · injection h with _ h; exact Or.inl h.symm
+
+theorem op3_err (pool pool' : Pool) (d a b : Nat) (f : Ct → Ct → Ct → Res Ct) (e : Err)
+    (h : op3 pool d a b f = .err e pool') :
+    pool' = pool ∨ ∃ cd ca cb c, pool[d]? = some cd ∧ pool[a]? = some ca ∧ pool[b]? = some cb ∧
+      f cd ca cb = .err e c ∧ pool' = pool.set d c := by
+  simp only [op3] at h
+  split at h
+  · next cd ca cb hcd hca hcb =>
+    split at h
+    · injection h with _ h; exact Or.inl h.symm
+    · obtain ⟨c, h1, h2⟩ := putRes_err _ _ _ _ _ h
+      exact Or.inr ⟨cd, ca, cb, c, hcd, hca, hcb, h1, h2⟩
+  · injection h with _ h; exact Or.inl h.symm
+
+theorem Inv_set_self (env : Env) (pool : Pool) (d : Nat) (cd : Ct) (h : Inv env pool) (hcd : pool[d]? = some cd) :
+    Inv env (pool.set d cd) := Inv_set _ _ _ _ h (h _ (mem_of_get? _ _ _ hcd))
+
+theorem alignStep_err_inv (env : Env) (pool pool' : Pool) (a b : Nat) (e : Err) (hI : Inv env pool)
+    (h : alignStep env pool a b = .err e pool') : Inv env pool' := by
+  simp only [alignStep] at h
+  split at h
+  · next ca cb hca hcb =>
+    split at h
+    · injection h with _ h; exact h ▸ hI
+    · split at h
+      · split at h
+        · cases h
+        · obtain ⟨c, h1, rfl⟩ := putRes_err _ _ _ _ _ h
+          exact rescaleAssign_err _ _ _ _ _ h1 ▸ Inv_set_self _ _ _ _ hI hcb
+      · split at h
+        · cases h
+        · obtain ⟨c, h1, rfl⟩ := putRes_err _ _ _ _ _ h
+          exact rescaleAssign_err _ _ _ _ _ h1 ▸ Inv_set_self _ _ _ _ hI hca
+  · injection h with _ h; exact h ▸ hI
+
+/-- an `Err` call also leaves every ciphertext of the pool within its storage -/
+theorem stepR_err_inv (env : Env) (pool pool' : Pool) (op : Op) (e : Err) (hI : Inv env pool)
+    (h : stepR env pool op = .err e pool') : Inv env pool' := by
+  have inv : ∀ (i : Nat) (c : Ct), pool[i]? = some c → c.inv env := fun i c h => hI _ (mem_of_get? _ _ _ h)
+  cases op <;> simp only [stepR] at h
+  case enc d k pt =>
+    rcases op1_err _ _ _ _ _ h with rfl | ⟨cd, c, hcd, hf, rfl⟩
+    · exact hI
+    · rcases withPt_err _ _ _ _ _ _ hf with h1 | h1
+      · exact h1 ▸ Inv_set_self _ _ _ _ hI hcd
+      · exact Inv_set _ _ _ _ hI (encrypt_err_inv _ _ _ _ _ _ (inv _ _ hcd) h1)
+  case addCt d a b =>
+    rcases op3_err _ _ _ _ _ _ _ h with rfl | ⟨cd, ca, cb, c, hcd, hca, hcb, hf, rfl⟩
+    · exact hI
+    · exact addCtInto_err _ _ _ _ _ _ hf ▸ Inv_set_self _ _ _ _ hI hcd
+  case addCtAssign d a =>
+    rcases op2_err _ _ _ _ _ _ h with rfl | ⟨cd, ca, c, hcd, hca, hf, rfl⟩
+    · exact hI
+    · exact absurd hf (addCtAssign_not_err _ _ _ _ _)
+  case addPtZnx d a pt =>
+    rcases op2_err _ _ _ _ _ _ h with rfl | ⟨cd, ca, c, hcd, hca, hf, rfl⟩
+    · exact hI
+    · rcases withPt_err _ _ _ _ _ _ hf with h1 | h1
+      · exact h1 ▸ Inv_set_self _ _ _ _ hI hcd
+      · exact Inv_set _ _ _ _ hI (addPtZnxInto_err_inv _ _ _ _ _ _ (inv _ _ hcd) h1)
+  case addPtZnxAssign d pt =>
+    rcases op1_err _ _ _ _ _ h with rfl | ⟨cd, c, hcd, hf, rfl⟩
+    · exact hI
+    · rcases withPt_err _ _ _ _ _ _ hf with h1 | h1
+      · exact h1 ▸ Inv_set_self _ _ _ _ hI hcd
+      · exact ptAlign_err _ _ _ _ _ h1 ▸ Inv_set_self _ _ _ _ hI hcd
+  case addPtRnx d a prec =>
+    rcases op2_err _ _ _ _ _ _ h with rfl | ⟨cd, ca, c, hcd, hca, hf, rfl⟩
+    · exact hI
+    · exact Inv_set _ _ _ _ hI (addPtRnxInto_err_inv _ _ _ _ _ _ (inv _ _ hcd) hf)
+  case addPtRnxAssign d prec =>
+    rcases op1_err _ _ _ _ _ h with rfl | ⟨cd, c, hcd, hf, rfl⟩
+    · exact hI
+    · exact addPtRnxAssign_err _ _ _ _ _ hf ▸ Inv_set_self _ _ _ _ hI hcd
+  case addCstRnx d a prec re im =>
+    rcases op2_err _ _ _ _ _ _ h with rfl | ⟨cd, ca, c, hcd, hca, hf, rfl⟩
+    · exact hI
+    · exact Inv_set _ _ _ _ hI (addCstRnxInto_err_inv _ _ _ _ _ _ _ _ (inv _ _ hcd) hf)
+  case addCstRnxAssign d prec re im =>
+    rcases op1_err _ _ _ _ _ h with rfl | ⟨cd, c, hcd, hf, rfl⟩
+    · exact hI
+    · exact addCstRnxAssign_err _ _ _ _ _ _ _ hf ▸ Inv_set_self _ _ _ _ hI hcd
+  case addCstZnx d a k ld re im =>
+    rcases op2_err _ _ _ _ _ _ h with rfl | ⟨cd, ca, c, hcd, hca, hf, rfl⟩
+    · exact hI
+    · exact Inv_set _ _ _ _ hI (addCstZnxIntoK_err_inv _ _ _ _ _ _ _ _ _ (inv _ _ hcd) hf)
+  case addCstZnxAssign d k ld re im =>
+    rcases op1_err _ _ _ _ _ h with rfl | ⟨cd, c, hcd, hf, rfl⟩
+    · exact hI
+    · exact addCstZnxAssignK_err _ _ _ _ _ _ _ _ hf ▸ Inv_set_self _ _ _ _ hI hcd
+  case neg d a =>
+    rcases op2_err _ _ _ _ _ _ h with rfl | ⟨cd, ca, c, hcd, hca, hf, rfl⟩
+    · exact hI
+    · exact negInto_err _ _ _ _ _ hf ▸ Inv_set_self _ _ _ _ hI hcd
+  case negAssign d =>
+    rcases op1_err _ _ _ _ _ h with rfl | ⟨cd, c, hcd, hf, rfl⟩
+    · exact hI
+    · cases hf
+  case mul d a b =>
+    rcases op3_err _ _ _ _ _ _ _ h with rfl | ⟨cd, ca, cb, c, hcd, hca, hcb, hf, rfl⟩
+    · exact hI
+    · exact mulInto_err _ _ _ _ _ _ hf ▸ Inv_set_self _ _ _ _ hI hcd
+  case mulAssign d a =>
+    rcases op2_err _ _ _ _ _ _ h with rfl | ⟨cd, ca, c, hcd, hca, hf, rfl⟩
+    · exact hI
+    · exact mulInto_err _ _ _ _ _ _ hf ▸ Inv_set_self _ _ _ _ hI hcd
+  case square d a =>
+    rcases op2_err _ _ _ _ _ _ h with rfl | ⟨cd, ca, c, hcd, hca, hf, rfl⟩
+    · exact hI
+    · exact squareInto_err _ _ _ _ _ hf ▸ Inv_set_self _ _ _ _ hI hcd
+  case squareAssign d =>
+    rcases op1_err _ _ _ _ _ h with rfl | ⟨cd, c, hcd, hf, rfl⟩
+    · exact hI
+    · exact squareInto_err _ _ _ _ _ hf ▸ Inv_set_self _ _ _ _ hI hcd
+  case mulPtZnx d a pt =>
+    rcases op2_err _ _ _ _ _ _ h with rfl | ⟨cd, ca, c, hcd, hca, hf, rfl⟩
+    · exact hI
+    · rcases withPt_err _ _ _ _ _ _ hf with h1 | h1
+      · exact h1 ▸ Inv_set_self _ _ _ _ hI hcd
+      · exact mulPtZnxInto_err _ _ _ _ _ _ h1 ▸ Inv_set_self _ _ _ _ hI hcd
+  case mulPtZnxAssign d pt =>
+    rcases op1_err _ _ _ _ _ h with rfl | ⟨cd, c, hcd, hf, rfl⟩
+    · exact hI
+    · rcases withPt_err _ _ _ _ _ _ hf with h1 | h1
+      · exact h1 ▸ Inv_set_self _ _ _ _ hI hcd
+      · exact mulPtZnxInto_err _ _ _ _ _ _ h1 ▸ Inv_set_self _ _ _ _ hI hcd
+  case mulPtRnx d a prec =>
+    rcases op2_err _ _ _ _ _ _ h with rfl | ⟨cd, ca, c, hcd, hca, hf, rfl⟩
+    · exact hI
+    · exact mulPtRnxInto_err _ _ _ _ _ _ hf ▸ Inv_set_self _ _ _ _ hI hcd
+  case mulPtRnxAssign d prec =>
+    rcases op1_err _ _ _ _ _ h with rfl | ⟨cd, c, hcd, hf, rfl⟩
+    · exact hI
+    · exact mulPtRnxInto_err _ _ _ _ _ _ hf ▸ Inv_set_self _ _ _ _ hI hcd
+  case mulCstRnx d a prec re im =>
+    rcases op2_err _ _ _ _ _ _ h with rfl | ⟨cd, ca, c, hcd, hca, hf, rfl⟩
+    · exact hI
+    · exact mulCstRnx_err _ _ _ _ _ _ _ _ _ hf ▸ Inv_set_self _ _ _ _ hI hcd
+  case mulCstRnxAssign d prec re im =>
+    rcases op1_err _ _ _ _ _ h with rfl | ⟨cd, c, hcd, hf, rfl⟩
+    · exact hI
+    · exact mulCstRnx_err _ _ _ _ _ _ _ _ _ hf ▸ Inv_set_self _ _ _ _ hI hcd
+  case mulAddCt d a b =>
+    rcases op3_err _ _ _ _ _ _ _ h with rfl | ⟨cd, ca, cb, c, hcd, hca, hcb, hf, rfl⟩
+    · exact hI
+    · exact mulAddWith_err _ _ _ _ _ hf ▸ Inv_set_self _ _ _ _ hI hcd
+  case mulAddPtZnx d a pt =>
+    rcases op2_err _ _ _ _ _ _ h with rfl | ⟨cd, ca, c, hcd, hca, hf, rfl⟩
+    · exact hI
+    · rcases withPt_err _ _ _ _ _ _ hf with h1 | h1
+      · exact h1 ▸ Inv_set_self _ _ _ _ hI hcd
+      · exact mulAddWith_err _ _ _ _ _ h1 ▸ Inv_set_self _ _ _ _ hI hcd
+  case mulAddPtRnx d a prec =>
+    rcases op2_err _ _ _ _ _ _ h with rfl | ⟨cd, ca, c, hcd, hca, hf, rfl⟩
+    · exact hI
+    · exact mulAddWith_err _ _ _ _ _ hf ▸ Inv_set_self _ _ _ _ hI hcd
+  case mulAddCstRnx d a prec re im =>
+    rcases op2_err _ _ _ _ _ _ h with rfl | ⟨cd, ca, c, hcd, hca, hf, rfl⟩
+    · exact hI
+    · simp only [mulAddCstRnx] at hf
+      split at hf
+      · cases hf
+      · exact mulAddWith_err _ _ _ _ _ hf ▸ Inv_set_self _ _ _ _ hI hcd
+  case mulPow2 d a bits =>
+    rcases op2_err _ _ _ _ _ _ h with rfl | ⟨cd, ca, c, hcd, hca, hf, rfl⟩
+    · exact hI
+    · exact shiftInto_err _ _ _ _ _ _ hf ▸ Inv_set_self _ _ _ _ hI hcd
+  case mulPow2Assign d bits =>
+    rcases op1_err _ _ _ _ _ h with rfl | ⟨cd, c, hcd, hf, rfl⟩
+    · exact hI
+    · cases hf
+  case divPow2 d a bits =>
+    rcases op2_err _ _ _ _ _ _ h with rfl | ⟨cd, ca, c, hcd, hca, hf, rfl⟩
+    · exact hI
+    · exact divPow2Into_err _ _ _ _ _ _ hf ▸ Inv_set_self _ _ _ _ hI hcd
+  case divPow2Assign d bits =>
+    rcases op1_err _ _ _ _ _ h with rfl | ⟨cd, c, hcd, hf, rfl⟩
+    · exact hI
+    · exact divPow2Assign_err _ _ _ _ _ hf ▸ Inv_set_self _ _ _ _ hI hcd
+  case rot d a k =>
+    rcases op2_err _ _ _ _ _ _ h with rfl | ⟨cd, ca, c, hcd, hca, hf, rfl⟩
+    · exact hI
+    · exact rotateInto_err _ _ _ _ _ _ hf ▸ Inv_set_self _ _ _ _ hI hcd
+  case rotAssign d k =>
+    rcases op1_err _ _ _ _ _ h with rfl | ⟨cd, c, hcd, hf, rfl⟩
+    · exact hI
+    · exact rotateAssign_err _ _ _ _ _ hf ▸ Inv_set_self _ _ _ _ hI hcd
+  case conj d a =>
+    rcases op2_err _ _ _ _ _ _ h with rfl | ⟨cd, ca, c, hcd, hca, hf, rfl⟩
+    · exact hI
+    · exact shiftInto_err _ _ _ _ _ _ hf ▸ Inv_set_self _ _ _ _ hI hcd
+  case conjAssign d =>
+    rcases op1_err _ _ _ _ _ h with rfl | ⟨cd, c, hcd, hf, rfl⟩
+    · exact hI
+    · cases hf
+  case rescale d k a =>
+    rcases op2_err _ _ _ _ _ _ h with rfl | ⟨cd, ca, c, hcd, hca, hf, rfl⟩
+    · exact hI
+    · exact rescaleInto_err _ _ _ _ _ _ hf ▸ Inv_set_self _ _ _ _ hI hcd
+  case rescaleAssign d k =>
+    rcases op1_err _ _ _ _ _ h with rfl | ⟨cd, c, hcd, hf, rfl⟩
+    · exact hI
+    · exact rescaleAssign_err _ _ _ _ _ hf ▸ Inv_set_self _ _ _ _ hI hcd
+  case align a b => exact alignStep_err_inv _ _ _ _ _ _ hI h
+  case compact d =>
+    rcases op1_err _ _ _ _ _ h with rfl | ⟨cd, c, hcd, hf, rfl⟩
+    · exact hI
+    · exact realloc_err _ _ _ _ _ hf ▸ Inv_set_self _ _ _ _ hI hcd
+  case realloc d size =>
+    rcases op1_err _ _ _ _ _ h with rfl | ⟨cd, c, hcd, hf, rfl⟩
+    · exact hI
+    · exact realloc_err _ _ _ _ _ hf ▸ Inv_set_self _ _ _ _ hI hcd
+  case compactCopy d a =>
+    rcases op2_err _ _ _ _ _ _ h with rfl | ⟨cd, ca, c, hcd, hca, hf, rfl⟩
+    · exact hI
+    · exact absurd hf (compactCopy_not_err _ _ _ _ _)
+  case setMeta d m =>
+    rcases op1_err _ _ _ _ _ h with rfl | ⟨cd, c, hcd, hf, rfl⟩
+    · exact hI
+    · exact setMeta_err _ _ _ _ _ hf ▸ Inv_set_self _ _ _ _ hI hcd
+  case dec a pt =>
+    rcases op1_err _ _ _ _ _ h with rfl | ⟨cd, c, hcd, hf, rfl⟩
+    · exact hI
+    · exact decrypt_err _ _ _ _ _ hf ▸ Inv_set_self _ _ _ _ hI hcd
+
+/-- the run of a caller that handles errors and goes on: an `Err` call is skipped, the state it
+leaves is kept; only a panic ends the run -/
+theorem runC_inv (env : Env) (hw : WF env) (prog : List Op) :
+    ∀ (s s' : Pool), Inv env s → runC env s prog = .ok s' → Inv env s' := by
+  induction prog with
+  | nil => intro s s' hI h; simp only [runC] at h; injection h with h; exact h ▸ hI
+  | cons op rest ih =>
+    intro s s' hI h
+    simp only [runC] at h
+    split at h
+    · next s1 hs1 => exact ih s1 s' (stepR_ok_inv env hw s s1 op hI hs1) h
+    · next e s1 hs1 => exact ih s1 s' (stepR_err_inv env s s1 op e hI hs1) h
+    · cases h
+
+/-- `P` holds at every state the error-tolerant run reaches -/
+def AlongC (P : Env → Pool → Op → Prop) (env : Env) : Pool → List Op → Prop
+  | _, [] => True
+  | s, op :: rest => P env s op ∧ ∀ s', (stepR env s op = .ok s' ∨ ∃ e, stepR env s op = .err e s') → AlongC P env s' rest
+
+theorem runC_no_panic (env : Env) (hw : WF env) (prog : List Op) :
+    ∀ (s : Pool), Inv env s → AlongC Initialised env s prog → (runC env s prog).isPanic = false := by
+  induction prog with
+  | nil => intro s _ _; rfl
+  | cons op rest ih =>
+    intro s hI hA
+    obtain ⟨h1, h2⟩ := hA
+    have hp := stepR_no_panic env hw s op hI h1
+    simp only [runC]
+    split
+    · next s1 hs1 => exact ih s1 (stepR_ok_inv env hw s s1 op hI hs1) (h2 s1 (Or.inl hs1))
+    · next e s1 hs1 => exact ih s1 (stepR_err_inv env s s1 op e hI hs1) (h2 s1 (Or.inr ⟨e, hs1⟩))
+    · next p hs1 => rw [hs1] at hp; simp [Res.isPanic] at hp
+
 end Ckks
